@@ -125,8 +125,12 @@ void SelectFdEvent::OnEventCallback(bool is_readable, bool is_writable, bool is_
 
     //! 要先复制一份，因为在for中很可能会改动到d->fd_events，引起迭代器失效问题
     auto tmp = data->fd_events;
-    for (auto event : tmp)
-        event->onEvent(tbox_events);
+    for (auto event : tmp) {
+        //! 前面的回调可能已将后面的事件 disable() 或 delete 了，这种事件不能再回调
+        auto &curr_events = data->fd_events;
+        if (std::find(curr_events.begin(), curr_events.end(), event) != curr_events.end())
+            event->onEvent(tbox_events);
+    }
 }
 
 void SelectFdEvent::onEvent(short events)
